@@ -2,6 +2,8 @@
     containers behave like sequential FIFO / map structures. *)
 From Verif Require Import Base.Prelude M1.Containers M1.ContainersProofs M4.LockDefs M4.LockTableCheck M4.Linearize.
 From VerifGen Require Import LockTable.
+From Verif Require Import M4.Sections M4.SectionsCheck Spec.Concurrency.
+From VerifGen Require Import AccessTable.
 
 (** A bounded queue never holds more than its capacity, after any operation sequence. *)
 Theorem C12_queue_bound : forall (cap : Z) (ops : list qop),
@@ -90,3 +92,15 @@ Theorem C12_atomic_bodies_real_time_order : forall (St Op Res : Type) (spec : St
   exists oa pre post, lin St Op Res c4 = pre ++ (a, oa, ra) :: post /\ (forall o r, ~ In (b, o, r) (pre ++ [(a, oa, ra)])).
 Proof. exact real_time_order. Qed.
 Print Assumptions C12_atomic_bodies_real_time_order.
+
+(** On the tables regenerated from the source on every run: each committed check-then-act sequence (bounded Push: capacity
+    check and append; Pop: emptiness check and removal; GetOrCreate: look-up and creation; TryQueue; the websocket id
+    check and registration) is ONE critical section of its lock, held exclusively. *)
+Theorem C12_check_then_act_sequences_atomic : forall fn fld mu, In (fn, fld, mu) atomic_sections ->
+  exists a, a <> 0%Z /\
+    (forall r, In r (sec_rows section_table fn fld) -> in_section mu a r = true) /\
+    (exists r, In r (sec_rows section_table fn fld) /\ is_read (kind_of r) = true) /\
+    (exists r, In r (sec_rows section_table fn fld) /\ is_write (kind_of r) = true) /\
+    unguarded access_table fn fld mu = [].
+Proof. exact atomic_sections_meaning. Qed.
+Print Assumptions C12_check_then_act_sequences_atomic.
